@@ -193,6 +193,17 @@ def main(tier, seed, replay=None):
         evs = [e for lst in ex.map(job, jobs, chunksize=2) for e in lst]
     traces = [{'ev': evs[i:i + 60]} for i in range(0, len(evs), 60)]
     acc, diag, res = validate_traces('TraceMpoGen', 'TraceMpoGen.cfg', traces, shards=16, timeout=3000)
+    if not replay:
+        from vlib import negative_controls
+        def c_gen(e):
+            if e['op'] == 'generate' and e['out'] == 'ok' and e['ent']:
+                e['ent'][0][-1][0] += 1
+                return True
+        def c_meas(e):
+            if e['op'] == 'measure' and e['out'] == 'ok' and (e['val'][0] or e['val'][1]):
+                e['val'] = [-e['val'][0], -e['val'][1]]
+                return True
+        rep.cov['parts']['negative_controls_rejected'] = negative_controls('TraceMpoGen', 'TraceMpoGen.cfg', traces, [('generate_mpo entry + 1', c_gen), ('measure sign flipped', c_meas)], timeout=900)
     for t, rj in zip(traces, validate_traces.last_rejects):
         for l, why in rj:
             e = t['ev'][l - 1]
